@@ -498,7 +498,7 @@ def check(ctx: Ctx) -> None:
         cfgm = build_cfg(repo, fm, Oracle(repo, fm, precise=True))
         boots = cfg_nodes_with_call(cfgm, lambda c: callee_attr(c) == "bootstrap")
         regs = cfg_nodes_with_call(cfgm, lambda c: callee_attr(c) == "_register" or (callee_attr(c) == "append" and "_gateways" in unparse(c.func)))
-        ob.require(len(boots) >= 2 and len(regs) >= 1, f"makegateway: bootstrap sites {len(boots)} (floor 2) / registration {len(regs)} (floor 1)")
+        ob.require(len(boots) >= 1 and len(regs) >= 1, f"makegateway: bootstrap sites {len(boots)} (floor 1) / registration {len(regs)} (floor 1)")
         regids = {r.id for r in regs}
         for b in boots:
             # everything that can run after the process exists and before the registration: must not be able to fail or leave
@@ -513,7 +513,8 @@ def check(ctx: Ctx) -> None:
                     bad = (node, "leaves")
                     break
                 own = node.ast.test if isinstance(node.ast, (ast.If, ast.While)) else node.ast
-                if own is not None and any(isinstance(x, (ast.Call, ast.Subscript, ast.Await)) for x in ast.walk(own)):
+                # (trace calls are contained: BaseGateway._trace / Group._trace swallow what their sink raises -- C11.j)
+                if own is not None and any((isinstance(x, ast.Call) and callee_attr(x) not in ("_trace", "trace")) or isinstance(x, (ast.Subscript, ast.Await)) for x in ast.walk(own)):
                     bad = (node, "can raise")
                     break
                 work.extend(m for (m, _lab) in cfgm.succ[nid])
